@@ -31,6 +31,8 @@ pub(crate) mod c05;
 pub(crate) mod c11;
 #[path = "/verif/harness/d/c20.rs"]
 pub(crate) mod c20;
+#[path = "/verif/harness/d/c18.rs"]
+pub(crate) mod c18;
 
 #[cfg(osrg_rustybgp_verif_shuttle)]
 #[path = "/verif/harness/s/c18s.rs"]
@@ -99,6 +101,8 @@ pub(crate) fn verif_main(args: &[String]) -> i32 {
     let c05 = c05::MalformedUpdates;
     let c11 = c11::RestartingSpeaker;
     let c20 = c20::KernelSync;
-    let checks: Vec<&dyn Check> = vec![&c08, &c01, &c10, &c13, &c07, &c16, &c09, &c05, &c11, &c20];
+    let c18 = c18::Monitoring { prop: "C18" };
+    let c19 = c18::Monitoring { prop: "C19" };
+    let checks: Vec<&dyn Check> = vec![&c08, &c01, &c10, &c13, &c07, &c16, &c09, &c05, &c11, &c20, &c18, &c19];
     vcore::main_with(&checks, &plan, args)
 }
